@@ -378,6 +378,30 @@ theorem build_correct {Val : Type} [Inhabited Val] (S : Prog.Sem Val) (p : Build
         (Bridge.toProg p b.argsOf).main vals) :=
   C01.valid_sound S _ (Bridge.wf_toProg p hwf b.argsOf) _ _ (build_valid p hwf b tr h LF) bind vals
 
+/-! ### the Builder does not look at what kind of operator a node is
+
+`BuildAlg.Prog` has no field for the operator type, domain, version, attributes or number of outputs
+of a node: a node is `isArg`, its input ids and the graphs it holds. Every theorem of this file is
+therefore *parametric in the operator kinds* — placement, multiplicity and order are functions of
+the use structure alone; an input-less generator (Constant, RandomNormal, …), a multi-output
+operator, an `ai.onnx.ml` operator or a user-defined one is scoped exactly like `Neg`.
+`build_kind_parametric` states it for programs decorated with an arbitrary labelling (C18's
+`relabel_build` is the same fact on its kinded programs). That the *real* Builder does not look at
+the node's class either is tie H: every run realises the same abstract program with different
+operator kinds per application (`lib_buildalg.make_value`, palettes) and demands identical decisions,
+and the model-free oracle judges each realisation. Likewise a node of the model is one *constructor
+call* of the program (the harness counts applications at the call site): two calls returning one
+node object are reported by the oracle (`call-sites-merged`). -/
+
+/-- a program whose nodes carry an arbitrary description of the operator applied -/
+structure Labelled (κ : Type) where
+  prog : BuildAlg.Prog
+  kind : Nat → κ
+
+/-- **build_kind_parametric**: whatever the operator kinds are, the Builder's decisions are the same. -/
+theorem build_kind_parametric {κ κ' : Type} (p : BuildAlg.Prog) (k : Nat → κ) (k' : Nat → κ') :
+    build (Labelled.mk p k).prog = build (Labelled.mk p k').prog := rfl
+
 /-! ### the remaining rejections are single tests of the model (exercised by the correspondence) -/
 
 /-- **claimed_twice_rejected**: a graph whose argument list meets the arguments already claimed by the
